@@ -166,7 +166,7 @@ template <typename PH> struct PpsChain {
       std::string txt; checked(); hx::count("certificate_checks");
       int d = own_decrease(op, y, z, SY, SZ, txt);
       if (d == -2) hx::inconclusive("hull_oracle");
-      else if (d == -3) { violation(key("certificate", op.name, ":ppl-compare"), txt + "; y=" + show_ps(SY) + " result=" + show_ps(SZ)); return false; }
+      else if (d == -3) { violation(key("certificate", op.name, TR::nnc() ? ":ppl-compare-nnc-counts" : ":ppl-compare"), txt + "; y=" + show_ps(SY) + " result=" + show_ps(SZ)); return false; }
       else if (d != 1) { violation(key("certificate", op.name, TR::nnc() ? ":nnc-counts" : ""), "non-stationary step without strict decrease of the recomputed powerset certificate: " + txt + "; y=" + show_ps(SY) + " x=" + show_ps(SX) + " result=" + show_ps(SZ)); return false; }
     }
     if (!twin_reported && coin(70)) {
@@ -182,7 +182,8 @@ template <typename PH> struct PpsChain {
         if (a < 0 || b < 0) hx::inconclusive("union_cap");
         else if (a == 0 || b == 0) {
           twin_reported = true;
-          std::string cls = perm ? ":disjunct-order" : (TR::nnc() ? ":nnc-representation" : "");
+          bool lin = false; for (size_t i = 0; i < SX.size(); ++i) if (ref::feasible(n, SX[i]) && lineality_dim(n, SX[i]) > 0) lin = true; for (size_t i = 0; i < SY.size(); ++i) if (ref::feasible(n, SY[i]) && lineality_dim(n, SY[i]) > 0) lin = true;
+          std::string cls = perm ? ":disjunct-order" : (TR::nnc() ? ":nnc-representation" : (lin && op.name.find("BHRZ03") != std::string::npos ? ":nontrivial-lineality" : ""));
           violation(key("twin", op.name, cls), "x " + show_ps(SX) + " y " + show_ps(SY) + ": result " + show_ps(SZ) + " but on twins (" + dx + " ; " + dy + ") " + show_ps(SZ2) + "; point " + show(w) + " is in one result only");
           if (cls.empty()) return false;
         }
